@@ -208,25 +208,42 @@ def r2_agreement(ck, cx, builds):
             from ..layout import fmt_items
             for p in cx.enum(cf, cls, max_depth=0, resolver=lambda c, fr, pa: None):
                 hp, st = annotated_copy(p, heap=True, versioned=('self._buffer',))
+                # every header cell is element k of some unpack(fmt, buffer[lo:hi]): its byte offset in the buffer and its struct code
                 cells = {}
+                ok2 = True
                 for key, val in st.heap.items():
                     if key.startswith("self._header['") and isinstance(val, ast.Subscript) and isinstance(val.value, ast.Call) \
-                            and callee_name(val.value) == 'unpack' and isinstance(val.slice, ast.Constant):
-                        cells[key[len("self._header['"):-2]] = (val.slice.value, val.value)
+                            and callee_name(val.value) == 'unpack' and isinstance(val.slice, ast.Constant) and len(val.value.args) == 2:
+                        call = val.value
+                        fmt = cx.ce.try_ev(call.args[0], cf.mod, cls)
+                        codes = [it[1] for it in fmt_items(fmt or '', [])]
+                        sl = call.args[1]
+                        k_ = val.slice.value
+                        if not (isinstance(sl, ast.Subscript) and isinstance(sl.slice, ast.Slice) and isinstance(k_, int) and 0 <= k_ < len(codes)):
+                            continue
+                        try:
+                            lo = nz.norm(sl.slice.lower, env).const_value() if sl.slice.lower is not None else 0
+                            hi = nz.norm(sl.slice.upper, env).const_value() if sl.slice.upper is not None else None
+                        except Exception:
+                            continue
+                        if lo is None:
+                            continue
+                        ok2 = ok2 and (hi is None or hi - lo == sum(fsize(c_) for c_ in codes))
+                        off = lo + sum(fsize(c_) for c_ in codes[:k_])
+                        cells[key[len("self._header['"):-2]] = (off, codes[k_])
                 if len(cells) < 4:
                     continue
-                call = list(cells.values())[0][1]
-                fmt = cx.ce.try_ev(call.args[0], cf.mod, cls)
-                parsed = [it[1] for it in fmt_items(fmt or '', [])]
-                keys = [k for k, v in sorted(cells.items(), key=lambda kv: kv[1][0])]
-                built = [(it[1], it[2]) for it in seq if it[0] == 'F'][:4]
+                built, off = [], 0
+                for it in seq:
+                    if it[0] != 'F' or len(built) == 4:
+                        break
+                    built.append((off, it[1], it[2]))
+                    off += fsize(it[1])
                 inv = {v: k for k, v in binds.items()}
-                ok1 = parsed == [b_[0] for b_ in built] and len(keys) == 4 and all(
-                    (k == 'len' and 'len(' in b_[1]) or b_[1] == 'message.%s' % inv.get(k) for k, b_ in zip(keys, built))
-                sl = call.args[1]
-                ok2 = isinstance(sl, ast.Subscript) and isinstance(sl.slice, ast.Slice) and sl.slice.upper is not None and \
-                    nz.norm(sl.slice.upper, env) == Poly.const(sum(fsize(f) for f in parsed)) and \
-                    (sl.slice.lower is None or nz.norm(sl.slice.lower, env) == Poly.const(0))
+                keys = [k for k, v in sorted(cells.items(), key=lambda kv: kv[1][0])]
+                ok1 = len(keys) == 4 and len(built) == 4 and all(
+                    cells[k] == (b_[0], b_[1]) and ((k == 'len' and 'len(' in b_[2]) or b_[2] == 'message.%s' % inv.get(k))
+                    for k, b_ in zip(keys, built))
                 okh = okh or (ok1 and ok2)
             ck.ob('R2', cf.qn, 'MBAP header is parsed with the format and field binding it is built with', okh, detail='header-binding', loc=cx.floc(cf),
                   message='tcp checkFrame parses the header differently from buildPacket / populateResult')
